@@ -21,11 +21,12 @@ pub static PROP: Prop = Prop {
     fixed,
     replay: Some(replay),
     breadcrumb: true,
+    fuzz: &[Fuzz { target: "totality", choice: false, runs: 1500000, max_len: 400 }],
 };
 
 fn budget(t: Tier) -> Budget {
     Budget {
-        cases: t.pick(400_000, 8_000_000),
+        cases: t.pick(1_500_000, 20_000_000),
         max_len: 260,
         shards: 16,
         dual_profile: false,
